@@ -6,7 +6,7 @@ for line in open(os.path.join(HERE, "seeded", "RESULTS.tsv")):
     parts = line.rstrip("\n").split("\t")
     if len(parts) >= 2 and re.match(r"C\d+-\d+$", parts[0]):
         rows[parts[0]] = parts
-out = ["57 changes written by independent sub-agents (each given only the property text and a scratch worktree), each confirmed by me before",
+out = ["__N__ changes written by independent sub-agents in two batches (each given only the property text and a scratch worktree), each confirmed by me before",
        "it was kept: the patch applies, the package imports, the 51 baseline tests pass with it, its demonstration fails with it and passes",
        "without it (`seeded/<id>/meta.json`). `tools_seed_all.sh` applies each to `/repo`, runs the check of its property (quick tier, seed 0)",
        "and undoes it; the table is generated from `seeded/RESULTS.tsv` by `tools_design_table.py`. *deductive* = a named obligation of the",
@@ -43,7 +43,7 @@ for i in ids:
     what = ", ".join(short(n, 90) for n in names[:3]) or short(caught, 160)
     out.append(f"| {i} | {short(note, 150)} | {verdict} | {'/'.join(kinds) or '-'}: {what} |")
 out += ["", f"Caught: {len([i for i in ids if rows.get(i) and rows[i][1] == 'rc=1'])} of {len(ids)}." + (f" Missed: {', '.join(missed)} (discussed below)." if missed else "")]
-text = "\n".join(out)
+text = "\n".join(out).replace("__N__", str(len(ids)))
 p = os.path.join(HERE, "DESIGN.md")
 s = open(p).read()
 a = s.index("## 7. Seeded changes")
@@ -51,3 +51,24 @@ b = s.index("## 8. False alarms")
 s = s[:a] + "## 7. Seeded changes\n\n" + text + "\n\n" + s[b:]
 open(p, "w").write(s)
 print(text[-400:])
+
+# ---- obligation counts of the summary table (section 0) from the evidence files -------------------------------------
+import glob
+s = open(p).read()
+for f in sorted(glob.glob(os.path.join(HERE, "evidence", "C*.json"))):
+    e = json.load(open(f))
+    pid, n = e["property_id"], e["coverage"]["obligations"]
+    lines = s.split("\n")
+    for k, ln in enumerate(lines):
+        if ln.startswith(f"| {pid} |"):
+            cols = ln.split("|")
+            c3 = cols[3]
+            if re.search(r"\((\d+)(, reals)?\)", c3):
+                c3 = re.sub(r"\((\d+)(, reals)?\)", lambda m: f"({n}{m.group(2) or ''})", c3, count=1)
+            else:
+                c3 = c3.rstrip() + f" ({n}) "
+            cols[3] = c3
+            lines[k] = "|".join(cols)
+    s = "\n".join(lines)
+s = re.sub(r"\d+ property-breaking changes written by independent sub-agents", f"{len(ids)} property-breaking changes written by independent sub-agents", s)
+open(p, "w").write(s)
